@@ -18,6 +18,9 @@ type c20Handler struct {
 	Phys string    `json:"phys"`
 	ID   [4]uint16 `json:"id"`
 	Caps []uint16  `json:"caps"` // EV_* types, any order, duplicates possible
+	// what else a handler reports about itself; none of it is the physical location
+	Uniq  string `json:"uniq,omitempty"`
+	Sysfs string `json:"sysfs,omitempty"`
 }
 
 type C20Case struct {
@@ -69,7 +72,7 @@ func c20Infos(hs []c20Handler, order []int) []input.DeviceInfo {
 			caps[j] = evdev.EvType(c)
 		}
 		out = append(out, input.DeviceInfo{ID: input.InputID{Bus: h.ID[0], Vendor: h.ID[1], Product: h.ID[2], Version: h.ID[3]},
-			Name: h.Name, Phys: h.Phys, CapableTypes: caps})
+			Name: h.Name, Phys: h.Phys, CapableTypes: caps, Uniq: h.Uniq, Sysfs: h.Sysfs})
 	}
 	return out
 }
@@ -253,11 +256,19 @@ func genC20(t *rapid.T) C20Case {
 		if id, ok := ids[h.Phys]; ok && rapid.IntRange(0, 9).Draw(t, "sameID") < 8 {
 			h.ID = id
 		} else {
-			h.ID = [4]uint16{3, uint16(rapid.IntRange(1, 5).Draw(t, "vendor")), uint16(rapid.IntRange(1, 5).Draw(t, "product")), 0x111}
+			// bus types as the kernel numbers them (PCI, USB, Bluetooth, virtual, i8042, I2C, host, SPI), and the corners
+			bus := rapid.SampledFrom([]uint16{3, 3, 3, 5, 5, 6, 0x11, 1, 0x18, 0x19, 0x1c, 0, 0xffff}).Draw(t, "bus")
+			h.ID = [4]uint16{bus, uint16(rapid.IntRange(1, 5).Draw(t, "vendor")), uint16(rapid.IntRange(1, 5).Draw(t, "product")),
+				rapid.SampledFrom([]uint16{0x111, 0x111, 0, 1, 0xffff}).Draw(t, "version")}
+			if rapid.IntRange(0, 7).Draw(t, "idCorner") == 0 {
+				h.ID[1], h.ID[2] = rapid.SampledFrom([]uint16{0, 0xffff, 0x8000}).Draw(t, "vendorCorner"), rapid.SampledFrom([]uint16{0, 0xffff, 0x8000}).Draw(t, "productCorner")
+			}
 			if !ok {
 				ids[h.Phys] = h.ID
 			}
 		}
+		h.Uniq = rapid.SampledFrom([]string{"", "", "", "aa:bb:cc:dd:ee:ff", "11:22:33:44:55:66", "S/N 0001", " "}).Draw(t, "uniq")
+		h.Sysfs = rapid.SampledFrom([]string{"", "/devices/pci0000:00/0000:00:14.0/usb1/1-1/1-1:1.0/input/input5", "/devices/virtual/input/input9"}).Draw(t, "sysfs")
 		var caps []evdev.EvType
 		if rapid.IntRange(0, 9).Draw(t, "fromSignature") < 7 {
 			caps = append(caps, rapid.SampledFrom(c20Signatures).Draw(t, "signature")...)
